@@ -147,9 +147,14 @@ func Generate(g *grammar.Grammar, w Writer, opts Options) error {
 		src := buf.String()
 		switch g.TargetLang {
 		case "go":
-			src = FormatGo(outName, ExtractGoImports(src))
+			// Note: import extraction applies to source files only (not to the Bison export).
+			if strings.HasSuffix(outName, ".go") {
+				src = FormatGo(outName, ExtractGoImports(src))
+			}
 		case "ts":
-			src = ExtractTsImports(src)
+			if strings.HasSuffix(outName, ".ts") {
+				src = ExtractTsImports(src)
+			}
 		}
 		if err := w.Write(outName, src); err != nil {
 			return err
